@@ -79,6 +79,9 @@ func runCase(c server.VerifC04Case, raw []byte, dir string) server.VerifC04Obs {
 	if exit != 0 && exit != 137 && exit != -1 {
 		return server.VerifC04Obs{Outcome: "child-error", Detail: errb.String(), Exit: exit}
 	}
+	if c.Long != nil {
+		return server.VerifC04ParentLong(c, dir, exit)
+	}
 	if c.Mgmt != nil {
 		return server.VerifC04ParentMgmt(c, dir, exit)
 	}
